@@ -202,7 +202,20 @@ pub fn transport_replay(args: &[String]) -> anyhow::Result<()> {
             s.log_bytes_upto = 5;
         }
         let mut pt = PacketTransport { source: src.clone() };
-        rt.block_on(read_all(&mut pt, &written, lens.len() + 2));
+        // "ack_first": the first packet is taken as the answer to a command (write_packet_with_ack) - whatever it is, acknowledgement or
+        // not, it is one packet, and the reader goes on behind it; "read_with_ack": every packet is read and acknowledged
+        let ack_first = b.get("ack_first").and_then(|x| x.as_bool()).unwrap_or(false);
+        let mut skip = 0usize;
+        if ack_first {
+            let r = rt.block_on(guarded_async(pt.write_packet_with_ack(&packets::Ack {})));
+            let mut s = src.0.lock().unwrap();
+            match r {
+                Err(_) => s.events.push(json!({"e": "panic"})),
+                Ok(_) => {}
+            }
+            skip = 1;
+        }
+        rt.block_on(read_all(&mut pt, &written[skip.min(written.len())..], lens.len() + 2));
         let s = src.0.lock().unwrap();
         let reads: Vec<Value> = s.events.iter().filter_map(|e| match e["e"].as_str().unwrap() {
             "poll" => Some(json!([e["want"], e["got"]])),
